@@ -18,7 +18,7 @@ Import ListNotations.
 Open Scope nat_scope.
 
 (* ================= facts about the generated edge kernel (as in C16.v) ================= *)
-Lemma kernel_identify_eds_ing a b : gen_identify_eds_ing a b = identify_eds_ing a b.
+Lemma C16_bridge_kernel_identify a b : gen_identify_eds_ing a b = identify_eds_ing a b.
 Proof.
   unfold gen_identify_eds_ing, identify_eds_ing. cbv zeta.
   match goal with
@@ -36,9 +36,9 @@ Proof.
   destruct (set_symdiff (U a) (U b)) as [|l [|r [|x t]]]; reflexivity.
 Qed.
 
-Lemma kernel_get_child_edge idx lp rp : gen_get_child_edge idx lp rp = get_child_edge idx lp rp.
+Lemma C16_bridge_kernel_child_edge idx lp rp : gen_get_child_edge idx lp rp = get_child_edge idx lp rp.
 Proof.
-  unfold gen_get_child_edge, get_child_edge. rewrite kernel_identify_eds_ing.
+  unfold gen_get_child_edge, get_child_edge. rewrite C16_bridge_kernel_identify.
   destruct (identify_eds_ing (snd lp) (snd rp)) as [[[l r] d]|]; reflexivity.
 Qed.
 
@@ -52,22 +52,22 @@ Qed.
 Print Assumptions C16_bridge_sort_edge_pos.
 
 (* ... and the model's sort_edge_by snd *)
-Lemma sort_edge_pos_model l : gen_sort_edge_pos l = sort_edge_by snd l.
+Lemma C16_bridge_sort_edge_pos_model l : gen_sort_edge_pos l = sort_edge_by snd l.
 Proof.
   unfold gen_sort_edge_pos, py_sorted_key, sort_edge_by. apply isort_by_ext.
   intros x y. reflexivity.
 Qed.
 
 (* `left_parent, right_parent = Edge.sort_edge([a, b]); Edge.get_child_edge(i, left_parent, right_parent)` *)
-Lemma child_step idx (p1 p2 : nat * edge) :
+Lemma C16_bridge_child_step idx (p1 p2 : nat * edge) :
   match gen_sort_edge_pos [p1; p2] with
   | [lp; rp] => match gen_get_child_edge idx lp rp with Some e => Some e | None => None end
   | _ => None
   end = child_of_pair idx p1 p2.
 Proof.
-  unfold child_of_pair. rewrite sort_edge_pos_model.
+  unfold child_of_pair. rewrite C16_bridge_sort_edge_pos_model.
   destruct (sort_edge_by snd [p1; p2]) as [|lp [|rp [|z t]]]; try reflexivity.
-  rewrite opt_eta. apply kernel_get_child_edge.
+  rewrite opt_eta. apply C16_bridge_kernel_child_edge.
 Qed.
 
 (* ================= 1. Tree._sort_tau_by_y ================= *)
@@ -138,14 +138,14 @@ Proof.
     unfold py_getitem_pos, nth_pair. simpl fst. simpl snd.
     destruct (nth_error prev get_anchor) as [a|]; [|reflexivity].
     destruct (nth_error prev _) as [r|]; [|reflexivity].
-    apply child_step. }
+    apply C16_bridge_child_step. }
   rewrite Hab. clear Hab. match goal with |- match ?x with _ => _ end = _ => destruct x; reflexivity end.
 Qed.
 Print Assumptions C16_bridge_center_kth.
 
 (* ================= 3. DirectTree ================= *)
 (* the greedy loop: state (T1, tau_matrix); the matrix is the model's [kget tau killed] *)
-Lemma direct_loop_fold n tau : forall (ks : list nat) (T1 killed : list nat) (m : mat),
+Lemma C16_bridge_direct_loop n tau : forall (ks : list nat) (T1 killed : list nat) (m : mat),
   (forall a b, m a b = kget tau killed a b) ->
   fst (fold_left (gen_direct_first_loop1 n) ks (T1, m)) = direct_loop (length ks) n tau T1 killed.
 Proof.
@@ -200,7 +200,7 @@ Theorem C16_bridge_direct_T1 :
   = direct_loop (n - 3) n tau T1 T1.
 Proof.
   intros tie n tau T1 m Hm.
-  rewrite (direct_loop_fold n tau _ T1 T1).
+  rewrite (C16_bridge_direct_loop n tau _ T1 T1).
   - unfold py_range2. rewrite seq_length. f_equal. lia.
   - apply mat_setcols_kget. exact Hm.
 Qed.
@@ -240,7 +240,7 @@ Proof.
     unfold py_getitem_pos, nth_pair. rewrite Nat.add_1_r.
     destruct (nth_error prev k) as [a|]; [|reflexivity].
     destruct (nth_error prev (S k)) as [b|]; [|reflexivity].
-    apply child_step. }
+    apply C16_bridge_child_step. }
   rewrite Hab. clear Hab. match goal with |- match ?x with _ => _ end = _ => destruct x; reflexivity end.
 Qed.
 Print Assumptions C16_bridge_direct_kth.
@@ -316,7 +316,7 @@ Theorem C16_bridge_tree_fit_given_empty :
 Proof. intros. reflexivity. Qed.
 
 (* the loop `for k in range(1, min(self.n_var - 1, self.truncated))` of train_vine; state = self.trees *)
-Lemma train_loop tie sel order ty d taus :
+Lemma C16_bridge_train_loop tie sel order ty d taus :
   tie_len tie ->
   forall (cnt k : nat) (acc : list (list edge)) (prev : list edge),
   k >= 1 -> length acc = k - 1 ->
@@ -349,7 +349,7 @@ Proof.
   intros tie sel order ty d t taus Ht. unfold gen_train_vine, train_vine_gen_opt. cbv zeta.
   rewrite C16_bridge_tree_fit_first by assumption.
   unfold py_range2.
-  rewrite (train_loop tie sel order ty d taus Ht (Nat.min (d - 1) t - 1) 1 [] _) by (simpl; lia).
+  rewrite (C16_bridge_train_loop tie sel order ty d taus Ht (Nat.min (d - 1) t - 1) 1 [] _) by (simpl; lia).
   destruct (train_rest _ _ _ _ _ _ _ _ _) as [ts|]; reflexivity.
 Qed.
 Print Assumptions C16_bridge_train_vine.
